@@ -318,6 +318,22 @@ fn class_of_diff(prop: &str, what: &str, d: &BTreeMap<String, (Vec<String>, Vec<
             }
         }
     }
+    // member keys of one owner that are defined in more than one file
+    let mut member_files: BTreeMap<String, std::collections::BTreeSet<String>> = BTreeMap::new();
+    for l in ctx {
+        if let Some(rest) = l.strip_prefix("member ") {
+            if let Some((owner_key, v)) = rest.split_once(" :: ") {
+                if let Some(at) = v.rsplit(" at ").next() {
+                    member_files.entry(owner_key.to_string()).or_default().insert(at.split(':').next().unwrap_or("").to_string());
+                }
+            }
+        }
+    }
+    let multi_member_keys: std::collections::BTreeSet<String> = member_files
+        .iter()
+        .filter(|(_, f)| f.len() >= 2)
+        .filter_map(|(k, _)| k.rsplit('.').next().map(|s| s.to_string()))
+        .collect();
     let trigger_of = |line: &str, cat: &str| -> String {
         let key = key_of(line);
         let words: Vec<&str> = key.split(' ').collect();
@@ -326,7 +342,9 @@ fn class_of_diff(prop: &str, what: &str, d: &BTreeMap<String, (Vec<String>, Vec<
             _ => words.get(1).copied().unwrap_or(""),
         };
         let file = words.get(1).copied().unwrap_or("").split('@').next().unwrap_or("");
-        if global_files.get(name).map(|s| s.len() >= 2).unwrap_or(false) {
+        if multi_member_keys.contains(name) {
+            "multi-file-member".into()
+        } else if global_files.get(name).map(|s| s.len() >= 2).unwrap_or(false) {
             "multi-file-global".into()
         } else if multi_file_types.contains(name) || multi_file_types.iter().any(|t| line.contains(t.as_str())) {
             "multi-file-type".into()
@@ -339,6 +357,8 @@ fn class_of_diff(prop: &str, what: &str, d: &BTreeMap<String, (Vec<String>, Vec<
             s.len() >= 2 && ctx.iter().any(|c| c.starts_with(&format!("tok {file}@")) && c.split(' ').nth(2) == Some(g.as_str()))
         }) {
             "uses-multi-file-global".into()
+        } else if multi_member_keys.iter().any(|k| ctx.iter().any(|c| c.starts_with(&format!("tok {file}@")) && c.split(' ').nth(2) == Some(k.as_str()))) {
+            "uses-multi-file-member".into()
         } else if matches!(cat, "typedesc" | "hoverdoc")
             && edited_text.map(|t| t.contains(&format!("@class {name}")) || t.contains(&format!("@class (partial) {name}"))).unwrap_or(false)
         {
